@@ -31,7 +31,7 @@ func VerifH_CompileSmoke() {
 // VerifH_C11_Determinism: the same module set compiled under every map-iteration policy
 // of the executor and every insertion order of the input map gives the same outcome.
 func VerifH_C11_Determinism() {
-	variant := vrt.Choice("variant", 3)
+	variant := vrt.Choice("variant", 4)
 	var texts [][2]string
 	switch variant {
 	case 0: // identities with equal local names in two modules deriving from one base
@@ -51,6 +51,12 @@ func VerifH_C11_Determinism() {
 			{"main", "module main { namespace 'urn:m'; prefix m; include sub; container c { uses sg; leaf l { type string; } } }"},
 			{"sub", "submodule sub { belongs-to main { prefix m; } grouping sg { leaf s { type string; } } }"},
 			{"dev", "module dev { namespace 'urn:d'; prefix d; import main { prefix m; } deviation /m:c/m:l { deviate add { default 'x'; } } }"},
+		}
+	case 3: // two modules deviating the same node with deviations that do not commute
+		texts = [][2]string{
+			{"tgt", "module tgt { namespace 'urn:t'; prefix t; container c { leaf l { type uint8; default 1; } } }"},
+			{"deva", "module deva { namespace 'urn:da'; prefix da; import tgt { prefix t; } deviation /t:c/t:l { deviate replace { default 5; } } }"},
+			{"devb", "module devb { namespace 'urn:db'; prefix db; import tgt { prefix t; } deviation /t:c/t:l { deviate replace { default 7; } } }"},
 		}
 	}
 	perm := [][]int{{0, 1, 2}, {0, 2, 1}, {1, 0, 2}, {1, 2, 0}, {2, 0, 1}, {2, 1, 0}}[vrt.Choice("insertion-order", 6)]
